@@ -24,7 +24,7 @@ REQUIRED_REACH = ["Circle._get_volume", "CircleBoundary._get_volume", "Sphere._g
                   "TriangleBoundary._get_volume", "Interval._get_volume", "IntervalBoundary._get_volume",
                   "ShapelyPolygon._get_volume", "ShapelyBoundary._get_volume", "Point._get_volume", "UnionDomain._get_volume",
                   "CutDomain._get_volume", "ProductDomain._get_volume", "Translate.volume", "Rotate.volume",
-                  "Domain.compute_n_from_density", "Domain.set_volume"]
+                  "Domain.compute_n_from_density", "Domain.set_volume", "TrimeshPolyhedron._get_volume", "TrimeshBoundary._get_volume"]
 MIN_NONTRIVIAL = 40
 ASSUMPTIONS = ["relative tolerance 1e-5 on volumes (float32 library)",
                "Boolean combinations without the disjoint/contained flag are documented estimates and are not judged for volume()",
